@@ -223,6 +223,19 @@ def gen_file(case):
         mods[t]["in_links"].append(f)
         mods[t]["in_link_slots"].append(sum(1 for mm in mods if mm and f in mm["in_links"]) - 1)
     pats = [absdev.make_pattern()] if case.get("pattern") else []
+    if case.get("pattern_slots"):
+        # pattern table with clones stored BEFORE and after their source (the program re-uses the lowest free slot), and holes
+        pats = []
+        for k_, slot in enumerate(case["pattern_slots"]):
+            if slot is None:
+                pats.append(None)
+            elif slot == "p":
+                pt = absdev.make_pattern()
+                pt["name"] = f"pat{k_}"
+                pt["x"], pt["y"] = 16 * k_, -k_
+                pats.append(pt)
+            else:
+                pats.append({"kind": "clone", "source": int(slot[1:]), "flags_PFFF": 1, "x": 100 + k_, "y": 5 - k_})
     if case.get("cell_module") is not None:
         for pt in pats:
             pt["cells"][1][0] = [33, 64, case["cell_module"], 0x0203, 0x0405]
@@ -514,6 +527,8 @@ def gen_cases(ctx):
             for cm in (0x0023, 0x0123, 0xFF00):
                 cases.append({"g": "project", "mods": [["Amplifier", []]], "pattern": True, "versions": [vers, bver],
                               "cell_module": cm})
+    for slots in (["c2", "p", "p", "c1"], ["c1", "p"], [None, "c2", "p", None, "c2"], ["p", "c0", "c0"], ["c3", "c3", None, "p"]):
+        cases.append({"g": "project", "mods": [["Amplifier", []]], "pattern_slots": slots})
     # module flag words a foreign writer may have left: the "output" bit on an ordinary module, module 0 without it, all bits
     for out_w in (None, 0x41, 0x0, 0xC3):
         for mod_w in (0x53, 0x02, 0x51 | 0x4000, 0xFFFFFFFF, 0):
